@@ -221,6 +221,35 @@ CLAIMED["C14"] = (
     "TLC/SANY; C-locale English month/day names; the harness splits a duration text into numbers and unit words, TLC does the reading; "
     "compact automatic durations are accepted if some contiguous unit range reads back exactly",
     "DESIGN.md §4 C14")
+CLAIMED["C13"] = (
+    "TLC model checking of NumFormat.tla (digit-sequence rounding with ties, notation readers, base conversion by long division, two's complement; "
+    "the reader agrees with a reference formatter on every small value; mutants refuted); one event per (value, format) displayed by the library, "
+    "judged by TLC (Trace_NumFormat)",
+    "NumFormat.tla reads a displayed text in its notation (currency symbol/code, tab, grouping commas valid only in the integer part in groups of "
+    "three, parentheses or minus, percent inside or outside the parentheses, d.dddE+xx, base-b digits and two's-complement words, 'w n/d', stars) "
+    "and requires it to equal the value rounded to the precision shown, on digit sequences with carries, accepting either neighbour at an exact "
+    "tie; the number of decimals shown must be the number asked for. TLC checks Read(Show(v)) against RoundAt for all values of <= 3 digits x "
+    "exponents x places x separator and refutes Truncate / CommaInDecimals. 3*10^4 (quick) / 5*10^5 (thorough) events over C01's numeric domain, "
+    "exact ties, powers of ten and neighbours x places 0..10/auto x separator x four negative styles x accounting x all supported currencies x "
+    "bases 2..36 x 0..8 places x two's complement x nine fraction accuracies x ratings are judged.",
+    "TLC/SANY; the value is its shortest round-trip decimal; red negative style carries no sign in text (magnitude only); n-digit fraction "
+    "accuracies: closeness computed by the harness with Fraction and passed as a flag; automatic decimals may be spelled with an exponent",
+    "DESIGN.md §4 C13")
+CLAIMED["C15"] = (
+    "TLC model checking of Borders.tla (stroke runs patched as add_stroke does vs last-writer-wins edge map; open cells with order stamps) and "
+    "Styles.tla (named styles, applied styles, reads, save/reopen), mutants refuted; every maximal TLC stroke / style history replayed on real "
+    "tables with both adjacent cells of every edge observed on the open document and on the file saved after each stroke, judged by TLC "
+    "(Trace_Borders, Trace_Styles)",
+    "Borders.tla: Level A is the edge map of one grid line under last-writer-wins; Level B the file's stroke layer (runs patched by cover / cut "
+    "start / cut end / split / append, sorted) read with greatest-order-wins, and the open cells whose setters compare orders; TLC checks "
+    "FileAgrees and OpenAgrees for all sequences of <= 3-4 strokes on 5 positions with 2 values and refutes StampAfterUpdate (the pinned tree) and "
+    "FirstRunWins. Styles.tla: SavedIsShown, ReadIsReadOnly, UnstyledKeep, fresh automatic names; ReadMarksDirty (the pinned tree) refuted. Stroke "
+    "histories run on horizontal and vertical lines (outer edge and inner lines, next to a merged rectangle), addressed from either adjacent "
+    "cell, with widths/colours/patterns drawn per run; style histories use complete 15-attribute sets over the documented domains (188 font "
+    "families, quarter-point sizes and indents, RGB, 5x3 alignments, wrap, background colour), applied by object, by name and through write().",
+    "TLC/SANY; tokens stand for concrete border / attribute-set values compared attribute by attribute; the named styles of a reopened document "
+    "are re-read (an unused style keeps only what the file stores for it)",
+    "DESIGN.md §4 C15")
 NOT_YET = "check not built yet in this round (planned: see DESIGN.md section for this property)"
 NA = {}
 
